@@ -24,6 +24,7 @@ import (
 	"github.com/cloudwego/eino/components/model"
 	"github.com/cloudwego/eino/components/prompt"
 	"github.com/cloudwego/eino/components/retriever"
+	"reflect"
 )
 
 func toComponentNode[I, O, TOption any]( // nolint: byted_s_args_length_limit
@@ -47,6 +48,9 @@ func toComponentNode[I, O, TOption any]( // nolint: byted_s_args_length_limit
 }
 
 func toEmbeddingNode(node embedding.Embedder, opts ...GraphAddNodeOpt) (*graphNode, *graphAddNodeOpts) {
+	if isNilComponent(node) {
+		return nilNode(opts...)
+	}
 	return toComponentNode(
 		node,
 		components.ComponentOfEmbedding,
@@ -58,6 +62,9 @@ func toEmbeddingNode(node embedding.Embedder, opts ...GraphAddNodeOpt) (*graphNo
 }
 
 func toRetrieverNode(node retriever.Retriever, opts ...GraphAddNodeOpt) (*graphNode, *graphAddNodeOpts) {
+	if isNilComponent(node) {
+		return nilNode(opts...)
+	}
 	return toComponentNode(
 		node,
 		components.ComponentOfRetriever,
@@ -69,6 +76,9 @@ func toRetrieverNode(node retriever.Retriever, opts ...GraphAddNodeOpt) (*graphN
 }
 
 func toLoaderNode(node document.Loader, opts ...GraphAddNodeOpt) (*graphNode, *graphAddNodeOpts) {
+	if isNilComponent(node) {
+		return nilNode(opts...)
+	}
 	return toComponentNode(
 		node,
 		components.ComponentOfLoader,
@@ -80,6 +90,9 @@ func toLoaderNode(node document.Loader, opts ...GraphAddNodeOpt) (*graphNode, *g
 }
 
 func toIndexerNode(node indexer.Indexer, opts ...GraphAddNodeOpt) (*graphNode, *graphAddNodeOpts) {
+	if isNilComponent(node) {
+		return nilNode(opts...)
+	}
 	return toComponentNode(
 		node,
 		components.ComponentOfIndexer,
@@ -91,6 +104,9 @@ func toIndexerNode(node indexer.Indexer, opts ...GraphAddNodeOpt) (*graphNode, *
 }
 
 func toChatModelNode(node model.BaseChatModel, opts ...GraphAddNodeOpt) (*graphNode, *graphAddNodeOpts) {
+	if isNilComponent(node) {
+		return nilNode(opts...)
+	}
 	return toComponentNode(
 		node,
 		components.ComponentOfChatModel,
@@ -102,6 +118,9 @@ func toChatModelNode(node model.BaseChatModel, opts ...GraphAddNodeOpt) (*graphN
 }
 
 func toChatTemplateNode(node prompt.ChatTemplate, opts ...GraphAddNodeOpt) (*graphNode, *graphAddNodeOpts) {
+	if isNilComponent(node) {
+		return nilNode(opts...)
+	}
 	return toComponentNode(
 		node,
 		components.ComponentOfPrompt,
@@ -113,6 +132,9 @@ func toChatTemplateNode(node prompt.ChatTemplate, opts ...GraphAddNodeOpt) (*gra
 }
 
 func toDocumentTransformerNode(node document.Transformer, opts ...GraphAddNodeOpt) (*graphNode, *graphAddNodeOpts) {
+	if isNilComponent(node) {
+		return nilNode(opts...)
+	}
 	return toComponentNode(
 		node,
 		components.ComponentOfTransformer,
@@ -124,6 +146,9 @@ func toDocumentTransformerNode(node document.Transformer, opts ...GraphAddNodeOp
 }
 
 func toToolsNode(node *ToolsNode, opts ...GraphAddNodeOpt) (*graphNode, *graphAddNodeOpts) {
+	if isNilComponent(node) {
+		return nilNode(opts...)
+	}
 	return toComponentNode(
 		node,
 		ComponentOfToolsNode,
@@ -135,6 +160,9 @@ func toToolsNode(node *ToolsNode, opts ...GraphAddNodeOpt) (*graphNode, *graphAd
 }
 
 func toLambdaNode(node *Lambda, opts ...GraphAddNodeOpt) (*graphNode, *graphAddNodeOpts) {
+	if isNilComponent(node) {
+		return nilNode(opts...)
+	}
 	info, options := getNodeInfo(opts...)
 
 	gn := toNode(info, node.executor, nil, node.executor.meta, node, opts...)
@@ -143,12 +171,30 @@ func toLambdaNode(node *Lambda, opts ...GraphAddNodeOpt) (*graphNode, *graphAddN
 }
 
 func toAnyGraphNode(node AnyGraph, opts ...GraphAddNodeOpt) (*graphNode, *graphAddNodeOpts) {
+	if isNilComponent(node) {
+		return nilNode(opts...)
+	}
 	meta := parseExecutorInfoFromComponent(node.component(), node)
 	info, options := getNodeInfo(opts...)
 
 	gn := toNode(info, nil, node, meta, node, opts...)
 
 	return gn, options
+}
+
+// isNilComponent reports whether no component was given: nil, or a nil pointer in an interface.
+func isNilComponent(node any) bool {
+	if node == nil {
+		return true
+	}
+	v := reflect.ValueOf(node)
+	return v.Kind() == reflect.Ptr && v.IsNil()
+}
+
+// nilNode stands for a missing component: addNode rejects it with an error.
+func nilNode(opts ...GraphAddNodeOpt) (*graphNode, *graphAddNodeOpts) {
+	_, options := getNodeInfo(opts...)
+	return nil, options
 }
 
 func toPassthroughNode(opts ...GraphAddNodeOpt) (*graphNode, *graphAddNodeOpts) {
